@@ -111,6 +111,13 @@ static LatLng edgeNear(H3Index h0, bool corner, int &cls) {
     return {(double)asinl(pz / n), (double)atan2l(py, px)};
 }
 
+// finite doubles at which naive arithmetic (sums, products, squares, casts) overflows, underflows or loses the sign
+static const double SPECIAL_FINITE[] = {0.0, -0.0, 2.2250738585072014e-308, -2.2250738585072014e-308, 4.9406564584124654e-324, -4.9406564584124654e-324,
+                                        1.0, -1.0, 1.5707963267948966, -1.5707963267948966, 3.141592653589793, -3.141592653589793,
+                                        6.283185307179586, -6.283185307179586, 1e10, -1e10, 9.2e18, -9.2e18, 1e154, -1e154, 1.4e154, -1.4e154, 1e155, -1e155,
+                                        1e300, -1e300, 8.99e307, -8.99e307, 1e308, -1e308, 1.7976931348623157e308, -1.7976931348623157e308};
+static const int NSPECIAL = (int)(sizeof(SPECIAL_FINITE) / sizeof(double));
+
 static Case draw() {
     Case c;
     c.kind = rpick({12, 1, 1});
@@ -164,8 +171,9 @@ static Case draw() {
         if (c.lat < -gen::PI / 2) c.lat = -gen::PI / 2;
     } else if (c.kind == 1) {
         auto anyFinite = [&]() {
-            int m = rpick({2, 2, 1, 1, 1});
+            int m = rpick({2, 2, 1, 1, 1, 2});
             double v;
+            if (m == 5) return SPECIAL_FINITE[ri(0, NSPECIAL - 1)];
             if (m == 0) { uint64_t b = r64(); memcpy(&v, &b, 8); if (!std::isfinite(v)) v = 1.5; return v; }
             if (m == 1) return (2 * runit() - 1) * 100.0;
             if (m == 2) return (ri(0, 1) ? 1 : -1) * std::pow(10.0, ri(1, 308));
@@ -228,6 +236,19 @@ static void enumerate(const std::string &tier, int shard, int nshards, const std
             }
         }
     }
+    // every ordered pair of special finite doubles (overflow / underflow / sign traps of naive arithmetic) at three resolutions
+    c.kind = 1;
+    c.cls = 0;
+    for (int a = 0; a < NSPECIAL; a++)
+        for (int b = 0; b < NSPECIAL; b++) {
+            if ((idx++ % nshards) != shard) continue;
+            for (int r : {0, 7, 15}) {
+                c.lat = SPECIAL_FINITE[a];
+                c.lng = SPECIAL_FINITE[b];
+                c.res = r;
+                emit(c);
+            }
+        }
     (void)tier;
 }
 
